@@ -1,5 +1,6 @@
 """C11 - when an application's message handling returns, all output has been written (DESIGN.md 6/C11)."""
 import json
+import os
 import re
 import vlib
 
@@ -38,6 +39,35 @@ def run(ctx, replay):
         for e in vlib.read_ndjson(out):
             e["app"] = app
             events.append(e)
+    # the built programs: everything is on standard output by the time the process has exited
+    if not replay:
+        from c10 import build_binary
+        import hashlib
+        import subprocess
+        for app in apps:
+            binary = build_binary(ctx, app)
+            for e in [x for x in events if x.get("ev") == "c11x" and x["app"] == app]:
+                c = caselist[e["id"]]
+                d = ctx.path("bin_%s_%d" % (app, e["id"]))
+                os.makedirs(d)
+                fn = os.path.join(d, "in.rtcm")
+                with open(fn, "wb") as f:
+                    f.write(bytes(c["in"]))
+                try:
+                    if app == "displayrtcm3":
+                        r = subprocess.run([binary, fn, "2023-05-10"], cwd=d, capture_output=True, timeout=60)
+                    else:
+                        cfgf = os.path.join(d, "cfg.json")
+                        with open(cfgf, "w") as f:
+                            json.dump({"display_messages": False, "record_messages": False, "log_directory": d}, f)
+                        r = subprocess.run([binary, "-c", cfgf], cwd=d, stdin=open(fn, "rb"), capture_output=True, timeout=60)
+                    out, ret = r.stdout, r.returncode == 0
+                except subprocess.TimeoutExpired:
+                    out, ret = b"", False
+                same = len(out) == e["want_len"] and hashlib.sha1(out).hexdigest() == e["want_sha"]
+                e.update(dict(ev="c11", hold=0, ref_writes=1, binary=True, nin=len(c["in"]), returned_while_write_blocked=False, returned=ret,
+                              complete_at_return=same, final_equal_ref=True, ref_matches_expected=same, bytes_at_return=len(out)))
+    events = [e for e in events if e.get("ev") != "c11x"]
     used = [e for e in events if not e.get("skipped")]
     if not used:
         raise vlib.Inconclusive("no C11 case could be exercised")
